@@ -278,6 +278,9 @@ func run(sc scenario) outcome {
 	go func() { rt.Shutdown(); close(sd) }()
 	select {
 	case <-sd:
+		if e != nil {
+			e.WaitPeerClosed(2 * time.Second)
+		}
 	case <-time.After(20 * time.Second):
 	}
 	if e != nil {
